@@ -1,6 +1,7 @@
 package rules
 
 import (
+	"go/token"
 	"go/types"
 	"sort"
 	"strings"
@@ -24,7 +25,6 @@ import (
 // Functions of pkg/arrow (the typed accessors) are opaque: their result derives
 // from their arguments at the call site, which keeps the column id that is
 // passed apart from the ids passed at other call sites.
-
 
 type tokSet map[string]bool
 
@@ -294,6 +294,18 @@ func newOriginEngine(p *core.Prog, g *callgraph.Graph, fns map[*ssa.Function]boo
 				for _, ins := range b.Instrs {
 					switch x := ins.(type) {
 					case *ssa.Store:
+						// table-driven column ids: `for _, row := range []struct{name string; id *int}{{"a", &ids.A}, …} {
+						// id, _ := FieldIDFromSchema(schema, row.name); *row.id = id }` — row by row, the constant name
+						// of a row is the column of the field that row's pointer designates
+						for fv, name := range tableDrivenIDs(x) {
+							if e.field[fv] == nil {
+								e.field[fv] = tokSet{}
+							}
+							if !e.field[fv]["col:"+name] {
+								e.field[fv]["col:"+name] = true
+								changed = true
+							}
+						}
 						if fa, ok := x.Addr.(*ssa.FieldAddr); ok {
 							fv := core.FieldVar(fa)
 							if fv != nil && repoStructField(fv, fa.X.Type()) {
@@ -379,4 +391,128 @@ func newOriginEngine(p *core.Prog, g *callgraph.Graph, fns map[*ssa.Function]boo
 		}
 	}
 	return e
+}
+
+// tableDrivenIDs recognises `*row.ptr = lookup(…, row.name)` where row is an element of a slice literal
+// built in the same function, and returns, for every row of that literal, the struct field the row's
+// pointer component designates together with the row's constant name component.
+func tableDrivenIDs(st *ssa.Store) map[*types.Var]string {
+	ptr, ok := st.Addr.(*ssa.Field) // row.ptr of a row loaded by value
+	var rowVal ssa.Value
+	ptrIdx := -1
+	if ok {
+		rowVal, ptrIdx = ptr.X, ptr.Field
+	} else if ld, ok2 := st.Addr.(*ssa.UnOp); ok2 && ld.Op == token.MUL { // row addressed in place: *(&rows[i].ptr)
+		if fa, ok3 := ld.X.(*ssa.FieldAddr); ok3 {
+			rowVal, ptrIdx = fa.X, fa.Field
+		}
+	}
+	if rowVal == nil {
+		return nil
+	}
+	// the stored id comes from a column-id lookup whose name argument is a component of the same row
+	var lookup *ssa.Call
+	switch v := core.Strip(st.Val).(type) {
+	case *ssa.Extract:
+		lookup, _ = v.Tuple.(*ssa.Call)
+	case *ssa.Call:
+		lookup = v
+	}
+	if lookup == nil {
+		return nil
+	}
+	f := core.CalleeObj(lookup)
+	if f == nil || f.Pkg() == nil || f.Pkg().Path() != pkgArrowUtils || !strings.Contains(f.Name(), "FieldID") {
+		return nil
+	}
+	nameIdx := -1
+	for _, a := range core.CallArgs(lookup) {
+		switch n := a.(type) {
+		case *ssa.Field:
+			if n.X == rowVal {
+				nameIdx = n.Field
+			}
+		case *ssa.UnOp:
+			if fa, ok := n.X.(*ssa.FieldAddr); ok && n.Op == token.MUL && fa.X == rowVal {
+				nameIdx = fa.Field
+			}
+		}
+	}
+	if nameIdx < 0 {
+		return nil
+	}
+	// the row: an element of a slice over an array literal
+	var elemAddr *ssa.IndexAddr
+	switch r := rowVal.(type) {
+	case *ssa.UnOp:
+		elemAddr, _ = r.X.(*ssa.IndexAddr)
+	case *ssa.IndexAddr:
+		elemAddr = r
+	case *ssa.Alloc:
+		// the range variable lives in a local cell: `*cell = rows[i]`
+		for _, ref := range *r.Referrers() {
+			if s0, ok := ref.(*ssa.Store); ok && s0.Addr == ssa.Value(r) {
+				if ld, ok := s0.Val.(*ssa.UnOp); ok && ld.Op == token.MUL {
+					if ia, ok := ld.X.(*ssa.IndexAddr); ok {
+						if elemAddr != nil && elemAddr != ia {
+							return nil
+						}
+						elemAddr = ia
+					}
+				}
+			}
+		}
+	}
+	if elemAddr == nil {
+		return nil
+	}
+	sl, ok := core.Strip(elemAddr.X).(*ssa.Slice)
+	if !ok {
+		return nil
+	}
+	arr, ok := sl.X.(*ssa.Alloc)
+	if !ok {
+		return nil
+	}
+	names := map[int64]string{}
+	targets := map[int64]*types.Var{}
+	for _, ref := range *arr.Referrers() {
+		ia, ok := ref.(*ssa.IndexAddr)
+		if !ok {
+			continue
+		}
+		k, isC := core.ConstInt(ia.Index)
+		if !isC {
+			continue
+		}
+		for _, r2 := range *ia.Referrers() {
+			fa, ok := r2.(*ssa.FieldAddr)
+			if !ok {
+				continue
+			}
+			for _, r3 := range *fa.Referrers() {
+				s3, ok := r3.(*ssa.Store)
+				if !ok || s3.Addr != ssa.Value(fa) {
+					continue
+				}
+				switch fa.Field {
+				case nameIdx:
+					if n, isS := constString(s3.Val); isS {
+						names[k] = n
+					}
+				case ptrIdx:
+					if tgt, ok := s3.Val.(*ssa.FieldAddr); ok {
+						targets[k] = core.FieldVar(tgt)
+					}
+				}
+			}
+		}
+	}
+	out := map[*types.Var]string{}
+	for k, n := range names {
+		if t := targets[k]; t != nil {
+			out[t] = n
+		}
+	}
+	return out
 }
